@@ -326,3 +326,24 @@ Proof.
   eexists. eexists. split; [reflexivity|]. split; [vm_compute; reflexivity|].
   split; [vm_compute; reflexivity|vm_compute; reflexivity].
 Qed.
+
+(* The same two look-ups, when a route exists at routing time: a request routed to route A = (h, "")
+   whose dial is overtaken by the registration of the more specific route B = (h, "/admin") gets a
+   connection to B's backend, pooled under A's key.  The next request that only A matches is handed
+   that connection: it reaches B's backend.  No UnRegister and no long-running request is needed. *)
+Definition hq_crosswire_witness : list hp_op :=
+  [HRegister (hx "682e74657374") [] [] 1;
+   HBeginRaced 1 0 0 (hx "682e74657374") (hx "2f61646d696e2f78") [] true
+               (HRegister (hx "682e74657374") (hx "2f61646d696e") [] 2);
+   HEnd 1].
+
+Theorem hq_request_cross_wired_to_other_route :
+  exists st st',
+    hp_run hq_crosswire_witness = Some st /\
+    hp_step st (HBegin 2 0 0 (hx "682e74657374") (hx "2f7075626c6963") [] false) = Some (st', HReached 2) /\
+    hp_spec_out rc_owner (rt_abs (hp_routes st)) (hx "682e74657374") (hx "2f7075626c6963") [] = HReached 1.
+Proof.
+  destruct (hp_run hq_crosswire_witness) as [st|] eqn:R; [|vm_compute in R; discriminate].
+  vm_compute in R. inversion R; subst st; clear R.
+  eexists. eexists. split; [reflexivity|]. split; [vm_compute; reflexivity|vm_compute; reflexivity].
+Qed.
